@@ -34,10 +34,10 @@ def run(prop, replay=None):
     v.notes.append("sanity: faulty variants shared/collide violate PerKey")
     w = workdir("partition")
     cfg = "_pg.cfg"
-    L = 10 if quick else 13
+    L = 10 if quick else 12
     with open(os.path.join(SPEC, cfg), "w") as f:
         f.write("CONSTANTS MaxLen = %d\nNKeys = 3\nINIT Init\nNEXT Next\nINVARIANT Emit\nCHECK_DEADLOCK FALSE\n" % L)
-    r = run_tlc(SPEC, "PartGen", cfg, "partgen", workers=1, timeout=1800, simulate=(250 if quick else 20000), depth=L + 1, tlc_seed=vlib.seed())
+    r = run_tlc(SPEC, "PartGen", cfg, "partgen", workers=1, timeout=1800, simulate=(250 if quick else 1200), depth=L + 1, tlc_seed=vlib.seed())
     os.remove(os.path.join(SPEC, cfg))
     if r.error:
         raise vlib.ToolError("PartGen: " + r.error)
